@@ -18,7 +18,9 @@ CLAIM = {
             "funding_double_spent_height / mutual_closing_height / closing_swept_height, which returns true only when "
             "depth >= limit and saw_forget_channel, with depth = (height + 1) saturating-minus the event height; "
             "closing_swept_height is set only on the not-swept -> swept edge of is_closing_swept, which requires "
-            "is_all_spent; saw_forget_channel is written only by ChainMonitorBase::forget_channel <- Channel::forget "
+            "is_all_spent, and on_remove_block_end samples is_closing_swept before and after undoing the block's changes "
+            "and clears closing_swept_height on every path where it went swept -> not swept (so the depth is counted on "
+            "the current best chain); saw_forget_channel is written only by ChainMonitorBase::forget_channel <- Channel::forget "
             "<- Node::forget_channel; forget_channel removes only stubs; (R15.3) new_channel refuses "
             "dbid_high_water_mark >= dbid before creating anything, forget_channel raises the mark to the channel's "
             "oid (only upwards) and persists it before returning, and the mark survives restart (C11 R11.2 slots). "
@@ -203,6 +205,41 @@ def r152(ctx):
     cis = _named(av, "closing_is_swept")
     ctx.ob("R15.2", cis is not None and render(cis).endswith("State::is_closing_swept(self)"), f"{ab.name}/is-swept-source",
            f"closing_is_swept is `{render(cis)[:80] if cis else None}`", where=f"{ab.file}:{ab.line}")
+    # ... and is cleared again when a disconnected block un-sweeps the closing ("on the current best chain")
+    rb = p.fn(f"{ST}::on_remove_block_end")
+    rv0 = fnview(ctx, rb, policy=False)
+    rv = rv0.named()
+    for nm_ in ("closing_was_swept", "closing_is_swept"):
+        e = _named(rv, nm_)
+        ctx.ob("R15.2", e is not None and render(e).endswith("State::is_closing_swept(self)"), f"{rb.name}/{nm_}-source",
+               f"`{nm_}` in on_remove_block_end is `{render(e)[:80] if e else None}`, not is_closing_swept(): after a reorg "
+               f"closing_swept_height would not follow the best chain", where=f"{rb.file}:{rb.line}", sample=f"{nm_} <- self.is_closing_swept()")
+    clr = set()
+    for bi in rv.live_blocks():
+        for s in rb.stmts(bi):
+            if s.kind == "a" and any(isinstance(pr, tuple) and pr[0] == "f" and pr[2] == "closing_swept_height" for pr in s.place.proj):
+                val = render(rv0.expr(s.rv.ops[0])) if s.rv.ops else render(("agg",))
+                if "None" in str(s.rv.a) or "None" in val:
+                    clr.add(bi)
+    ctx.ob("R15.2", bool(clr), f"{rb.name}/clears", "on_remove_block_end never clears closing_swept_height", where=f"{rb.file}:{rb.line}")
+    cut = atoms.scenario_cut(rv, [atoms.parse_atom("closing_was_swept"), atoms.parse_atom("!closing_is_swept")])
+    rets = [bi for bi in rv.live_blocks() if rb.term(bi).kind == "ret"]
+    live = rv.reach(0, cut_edges=cut, cut_nodes=clr)
+    ctx.ob("R15.2", bool(cut) and not any(r in live for r in rets), f"{rb.name}/unswept-clears-height",
+           "a disconnected block that un-sweeps the closing outputs leaves closing_swept_height set: is_done keeps counting "
+           "depth from a sweep that is no longer on the best chain", where=f"{rb.file}:{rb.line}",
+           sample="closing_was_swept && !closing_is_swept => closing_swept_height = None on every path")
+    # the is-swept test is evaluated after the block's changes were undone
+    loops = R.loops_over(rv0, lambda x: "changes" in x)
+    isw = [bi for bi, c in rb.calls() if c.callee and c.callee.name == f"{ST}::is_closing_swept"]
+    ctx.ob("R15.2", len(loops) == 1 and len(isw) >= 2, f"{rb.name}/shape", f"{len(loops)} undo loops, {len(isw)} is_closing_swept calls",
+           where=f"{rb.file}:{rb.line}")
+    if len(loops) == 1 and len(isw) >= 2:
+        h = loops[0][0]
+        after = [bi for bi in isw if h not in rv0.reach(bi) ]
+        before = [bi for bi in isw if h in rv0.reach(bi)]
+        ctx.ob("R15.2", len(after) >= 1 and len(before) >= 1, f"{rb.name}/order", "is_closing_swept is not sampled once before and once after the undo loop",
+               where=f"{rb.file}:{rb.line}", sample="was_swept; undo changes; is_swept")
     sb = p.fn(f"{ST}::is_closing_swept")
     ok = R.body_calls(p, sb.name, "ClosingOutpoints::is_all_spent") or any(
         R.closure_calls(p, cd, lambda n: n.endswith("ClosingOutpoints::is_all_spent")) for bi, c in sb.calls() for cd in c.cls)
